@@ -74,6 +74,9 @@ func main() {
 		fmt.Fprintln(os.Stderr, "symgo:", err)
 		os.Exit(2)
 	}
+	if d := os.Getenv("SYMGO_GLOBALS"); d != "" {
+		in.DebugGlobals(d)
+	}
 	loadMs := time.Since(t0).Milliseconds()
 	type output struct {
 		LoadMs int64          `json:"load_ms"`
@@ -84,7 +87,11 @@ func main() {
 		if i%sn != si {
 			continue
 		}
-		o.Jobs = append(o.Jobs, in.RunJob(j))
+		jr := in.RunJob(j)
+		if os.Getenv("SYMGO_PROGRESS") != "" {
+			fmt.Fprintf(os.Stderr, "job %d %s%v: paths=%d wall=%dms solver=%dms queries=%d\n", i, j.Func, j.Args, len(jr.Paths), jr.WallMs, jr.SolverMs, jr.Queries)
+		}
+		o.Jobs = append(o.Jobs, jr)
 	}
 	enc, _ := json.MarshalIndent(o, "", " ")
 	if *out == "" {
